@@ -176,6 +176,13 @@ func runC08(s *Sim) {
 		s.Wait()
 		s.Advance(Pick(t, "outage-lead", time.Duration(0), 50*time.Millisecond, 2*time.Second))
 	}
+	// a writer that is already blocked in WriteDataPoints (no deadline of its own) when the target starts:
+	// during an outage nothing takes its points; whatever bounds the target still bounds it
+	if outageStarted && s.Idle(2) && t.Bool("writer-blocked-before-target", 1, 2) {
+		s.Start(2, y.writeOp(c.up, 2, dataID(0), []int{16}))
+		s.Wait()
+		s.Stat("env.writer-blocked-in-outage-before-target")
+	}
 	pendBefore := map[*pend]bool{}
 	for _, p := range s.Broker.Pend {
 		pendBefore[p] = true
@@ -363,7 +370,7 @@ func runC08(s *Sim) {
 		case cr == nil && target.harvested:
 			// Close returned without a close request (the stream or connection was already closed)
 		case cr == nil:
-			s.Violate("C08.close-timeout-ignored", behaviour, "Upstream.Close (ctx=bg, close timeout %v) on a healthy link under broker behaviour %q at reply #%d: no close request after %v", closeTO, behaviour, position, s.Now()-t0)
+			s.Violate("C08.close-timeout-ignored", behaviour, "Upstream.Close (ctx=bg, close timeout %v) under broker behaviour %q at reply #%d: neither returned nor sent a close request after %v", closeTO, behaviour, position, s.Now()-t0)
 		case cr.At-t0 > closeTO+time.Second:
 			s.Violate("C08.close-timeout-ignored", behaviour, "Upstream.Close (ctx=bg, close timeout %v): close request sent only after %v", closeTO, cr.At-t0)
 		case affectedDesc != "upstream-close" && !target.harvested:
